@@ -115,7 +115,8 @@ impl SlidingLogState {
             let time_until_slot = oldest
                 .checked_add(self.window_duration)
                 .map(|expiry| expiry.saturating_duration_since(now))
-                .unwrap_or(Duration::ZERO);
+                // An expiry that cannot be represented never arrives: the slot stays taken.
+                .unwrap_or(Duration::MAX);
 
             if time_until_slot > self.timeout_duration {
                 Err(self.timeout_duration)
@@ -123,8 +124,8 @@ impl SlidingLogState {
                 Ok(time_until_slot)
             }
         } else {
-            // Should not happen if limit > 0
-            Ok(Duration::ZERO)
+            // Only reachable with a limit of zero: no slot will ever free up.
+            Err(self.timeout_duration)
         }
     }
 
